@@ -429,6 +429,10 @@ def gen_route_circuit(mods, rng, k, measure):
     cirq = mods['cirq']
     lq = [cirq.LineQubit(100 + i) for i in range(k)]
     c = cirq.Circuit()
+    if k >= 2 and rng.random() < 0.06:
+        # the same interaction repeated through more timesteps than the default lookahead radius
+        a, b = rng.sample(lq, 2)
+        c.append([cirq.CZ(a, b)] * rng.randint(8, 10))
     for _ in range(rng.randint(2, 12)):
         two = k >= 2 and rng.random() < 0.6
         fam = rng.choice(ROUTE_2Q if two else ROUTE_1Q)
@@ -463,7 +467,7 @@ def route_case(mods, rec):
     else:
         mapper = cirq.HardCodedInitialMapper({cirq.LineQubit(a): phys[b] for a, b in rec['mapping']})
     router = cirq.RouteCQC(G)
-    routed, init, swap = with_timeout(rec.get('timeout', 20), lambda: router.route_circuit(
+    routed, init, swap = with_timeout(rec.get('timeout', 8), lambda: router.route_circuit(
         circuit, lookahead_radius=rec['lookahead'], tag_inserted_swaps=True, initial_mapper=mapper))
     return dict(G=G, phys=phys, circuit=circuit, routed=routed, init=init, swap=swap)
 
@@ -590,7 +594,7 @@ def confirm_route(mods, rec):
     try:
         r = route_case(mods, rec)
     except Timeout:
-        return False, 'route_circuit did not return within the time limit', f'route:hang:{rec["graph"]["kind"]}:{"directed" if rec["graph"]["directed"] else "undirected"}', rec
+        return False, 'route_circuit did not return within the time limit', f'route:hang:{"directed" if rec["graph"]["directed"] else "undirected"}', rec
     except Exception as e:
         return False, f'route_circuit raised {type(e).__name__}: {str(e)[:200]}', f'route:raises:{type(e).__name__}', rec
     clause, detail = route_oracle(mods, r)
@@ -627,7 +631,7 @@ def routing_stream(ctx, mods, checks, n_cases):
             r = route_case(mods, rec)
         except Timeout:
             ctx.count(stream, [g, before, mp], True)
-            ctx.violation(f'route:hang:{g["kind"]}:{"directed" if g["directed"] else "undirected"}', 'route_circuit did not return within 20 s', rec)
+            ctx.violation(f'route:hang:{"directed" if g["directed"] else "undirected"}', f'route_circuit did not return within {rec.get("timeout", 8)} s on a connected {g["kind"]} graph', rec)
             continue
         except Exception as e:
             ctx.count(stream, [g, before, mp], True)
